@@ -758,6 +758,9 @@ class World:
                 args.append(self.mk_duration(act[3]))
             it.ex.event(ev="action_start", kind=kind, target=act[1], msg=self.describe(msg.fields[0]), by=hook.actor_name if hook else None)
             return self.call_method(it, "ActorRef", meth, args)
+        if kind == "yield":
+            from .sim import Yield
+            return Yield()
         if kind == "ask_then_panic":
             # an ask to a peer is in flight (pinned across a join!/select!) when the same hook panics
             fut = self.start_action(it, ("ask", act[1], act[2]), hook)
